@@ -10,9 +10,9 @@ CONSTANTS
   MaxOffers = 1
   SkipOccupied = TRUE
   CallbackOwnOnly = TRUE
-  RemoveCancels = FALSE
+  RemoveCancels = TRUE
   CycleSkipsLocked = TRUE
-  OfferSkipsLocked = TRUE
+  OfferSkipsLocked = FALSE
 INVARIANT TypeOK
 INVARIANT AtMostOneNegotiation
 INVARIANT SlotsTrackLive
